@@ -52,11 +52,19 @@ def gen_cases(rng, tier: str) -> list[dict]:
             exprs = [("offender", bad)] + [("hidden", h) for h in hiding_parents(g, bad)]
             exprs.append(("wrapped", gen.wrap_random(g, bad, 2)))
             for origin, e in exprs:
+                prior: list[str] = []
                 for p in common.points_for(rng, e, 2):
-                    cases.append(common.make_eval_case(origin, e, p))
+                    c = common.make_eval_case(origin, e, p)
+                    c["prior"] = prior[:]
+                    prior.append(c["p"])
+                    cases.append(c)
     for origin, e in common.expr_stream(rng, tier, common.sizes(tier, 300, 4000), names=("x", "y")):
+        prior = []
         for p in common.points_for(rng, e, 3):
-            cases.append(common.make_eval_case(origin, e, p))
+            c = common.make_eval_case(origin, e, p)
+            c["prior"] = prior[:]
+            prior.append(c["p"])
+            cases.append(c)
     return cases
 
 
@@ -65,6 +73,8 @@ def check_cases(cases: list[dict], rep: Report, known: dict) -> None:
     for c in cases:
         e = wire.build_raw(c["e"])
         p = wire.build_point(c["p"])
+        for q in c.get("prior", []):
+            call(e.at, wire.build_point(q))
         impl = call(e.at, p)
         nc = NumCase((c["e"], c["p"]), f"eval {c['e']} {c['p']}", impl, dict(c, impl=repr(impl)))
         nc.info["_e"] = e
